@@ -22,6 +22,13 @@ CHECKS = {
             "inventory of exec/eval/compile/import sites",
             "CPython re / str.format semantics as modelled (automaton model cross-checked against re at start-up); "
             "validated names are str", "DESIGN.md 3/C06"),
+    "C05": ("who-may-call inventory of raw-store primitives; path enumeration to the slot store; interval reading of range guards; "
+            "store-before-raise path rule with a no-throw refinement; dominator queries",
+            "slots written only through Record.__setattr__; every path to the store converts or carries a legitimate bypass; "
+            "bounded integer constructors accept exactly [0, 2^N-1]; setters never store before a reachable raise; naive->UTC "
+            "dominates every return of datetime.__new__; typed lists convert every non-instance element",
+            "constructors of field types are trusted to return values of their type; plain name-to-attribute assignments cannot raise",
+            "DESIGN.md 3/C05"),
     "C07": ("AST-field coverage matrix of the interpreter against ast.<K>._fields; operator-table comparison; delegation shape of special methods",
             "every semantically relevant field of every handled AST node kind is read and list fields are consumed entirely; "
             "operator/comparator tables map each ast class to Python's operator; membership lambdas pass the container first; "
